@@ -6,6 +6,7 @@ import (
 	"os"
 	"regexp"
 	"sync"
+	"unicode/utf8"
 
 	"github.com/reeflective/readline/inputrc"
 	"github.com/reeflective/readline/internal/strutil"
@@ -222,24 +223,29 @@ func (k *Keys) ReadKey() (key rune, isAbort bool) {
 		key = k.macroKeys[0]
 		k.macroKeys = k.macroKeys[1:]
 
+	case len(k.buf) > 0:
+		// Keys that were read along with the command's own
+		// keys (typed ahead or pasted) are its arguments.
+		key = k.popRune()
+
 	case k.waiting:
 		buf := <-k.keysOnce
 		key = []rune(string(buf))[0]
 	default:
-		var buf []byte
-
 		// A read can yield no keys at all (it failed, or only
 		// contained a cursor position report): keep reading.
-		for len(buf) == 0 {
-			var err error
-
+		for len(k.buf) == 0 {
 			// If the input is closed, abort the pending command.
-			if buf, err = k.readInputFiltered(); err != nil {
+			buf, err := k.readInputFiltered()
+			if err != nil {
 				return inputrc.Esc, true
 			}
+
+			// Keys following the one we return stay available.
+			k.buf = append(k.buf, buf...)
 		}
 
-		key = []rune(string(buf))[0]
+		key = k.popRune()
 	}
 
 	// Always mark those keys as matched, so that
@@ -248,6 +254,18 @@ func (k *Keys) ReadKey() (key rune, isAbort bool) {
 	k.matched = append(k.matched, key)
 
 	return key, key == inputrc.Esc
+}
+
+// popRune removes and returns the first character of the key stack.
+func (k *Keys) popRune() rune {
+	key, size := utf8.DecodeRune(k.buf)
+	if key == utf8.RuneError && size <= 1 {
+		key, size = rune(k.buf[0]), 1
+	}
+
+	k.buf = k.buf[size:]
+
+	return key
 }
 
 // Pop removes the first byte in the key stack (first read) and returns it.
